@@ -154,6 +154,12 @@ theorem repl_split_invariance (fuel : Nat) (lines₁ lines₂ : List String)
   exact ⟨rfl, rfl, rfl⟩
 
 section Example
+/-- the same session with and without an empty line inside a form: same state, same transcript -/
+example (fuel : Nat) :
+    transcript (replRun fuel ["(car", "", "'(1 2))"]).2 = transcript (replRun fuel ["(car", "'(1 2))"]).2 := by
+  have hg : groups ["(car", "", "'(1 2))"] = groups ["(car", "'(1 2))"] := by decide
+  exact (repl_split_invariance fuel _ _ (by rw [hg]; exact sameLocTokens_refl _)).2.1
+
 /-- breaking `(define (f x) (* x 2))` after `(define (f x)` -/
 example : groups ["(define (f x)", "  (* x 2))", "(f 21)"] = groups ["(define (f x)\n  (* x 2))", "(f 21)"] :=
   (split_is_newline [] ["(f 21)"] "(define (f x)" "  (* x 2))" (by decide) (by decide) (by decide)).1
